@@ -94,13 +94,17 @@ def commit (s : St) (o o' : Obj) : St × Obj :=
     let s' := { s with nextRv := s.nextRv + 1 }
     if o''.del && o''.fins.isEmpty then (erase s' o.key, o'') else (put s' o'', o'')
 
-/-- `Delete` of one stored object (no preconditions). Foreground adds the
-`foregroundDeletion` finalizer. -/
-def deleteObj (s : St) (o : Obj) (fg : Bool) : St :=
-  let fins := if fg && !o.fins.contains fgFin then o.fins ++ [fgFin] else o.fins
+/-- `Delete` of one stored object (no preconditions) whose finalizers will be `fins`.
+Deleting an object that is already terminating changes nothing (and keeps the
+resourceVersion) unless a finalizer is added. -/
+def deleteWith (s : St) (o : Obj) (fins : List String) : St :=
   if fins.isEmpty then erase s o.key
-  else if o.del then put s { o with fins := fins }
+  else if o.del && fins == o.fins then s
   else put { s with nextRv := s.nextRv + 1 } { o with fins := fins, del := true, rv := s.nextRv }
+
+/-- Foreground adds the `foregroundDeletion` finalizer. -/
+def deleteObj (s : St) (o : Obj) (fg : Bool) : St :=
+  deleteWith s o (if fg && !o.fins.contains fgFin then o.fins ++ [fgFin] else o.fins)
 
 def deleteKey (s : St) (k : Key) (fg : Bool) : St :=
   match find s k with
@@ -227,82 +231,83 @@ def Resp.cls : Resp → String
   | .conflict => "conflict"
   | _ => "other"
 
-/-- `return reconcile.Result{…}, errors.Wrap(r.client.Status().Update(ctx, o), …)` -/
-def statusThen (o : Obj) (r : Res) : P :=
-  .call (.setStatus o.key o.rv o.conds) fun
+/-- `return reconcile.Result{…}, errors.Wrap(r.client.Status().Update(ctx, o), …)`;
+`k` is the key the reconcile was asked for (the object it fetched by that name). -/
+def statusThen (k : Key) (o : Obj) (r : Res) : P :=
+  .call (.setStatus k o.rv o.conds) fun
     | .obj _ => .ret r
     | _ => .ret .err
 
 open Xp.Gen
 
 /-- claim: UnpublishConnection (no-op), RemoveFinalizer, final status update -/
-def claimFinalize (cm : Obj) : P :=
+def claimFinalize (k : Key) (cm : Obj) : P :=
   if cm.fins.contains c08ClaimFinalizer then
-    .call (.removeFin cm.key cm.rv c08ClaimFinalizer) fun
-      | .obj cm' => statusThen (cm'.cond "Synced" "Success") .ok
-      | .notFound => statusThen (cm.cond "Synced" "Success") .ok
-      | r => statusThen (cm.cond "Synced" ("err:removeFin:" ++ r.cls)) .requeue
-  else statusThen (cm.cond "Synced" "Success") .ok
+    .call (.removeFin k cm.rv c08ClaimFinalizer) fun
+      | .obj cm' => statusThen k (cm'.cond "Synced" "Success") .ok
+      | .notFound => statusThen k (cm.cond "Synced" "Success") .ok
+      | r => statusThen k (cm.cond "Synced" ("err:removeFin:" ++ r.cls)) .requeue
+  else statusThen k (cm.cond "Synced" "Success") .ok
 
 /-- claim: `if meta.WasDeleted(cm) { … }` -/
-def claimDeleted (cm : Obj) (xr : Option Obj) : P :=
+def claimDeleted (k : Key) (cm : Obj) (xr : Option Obj) : P :=
   let cm := cm.cond "Ready" "Deleting"
   match xr with
-  | none => claimFinalize cm
+  | none => claimFinalize k cm
   | some x =>
-    if x.del && cm.flag then statusThen cm .requeue
+    if x.del && cm.flag then statusThen k cm .requeue
     else .call (.delete ⟨.xr, cm.ref⟩ cm.flag) fun
-      | .ok => if cm.flag then .ret .requeue else claimFinalize cm
-      | .notFound => if cm.flag then .ret .requeue else claimFinalize cm
-      | r => statusThen (cm.cond "Synced" ("err:deleteXR:" ++ r.cls)) .requeue
+      | .ok => if cm.flag then .ret .requeue else claimFinalize k cm
+      | .notFound => if cm.flag then .ret .requeue else claimFinalize k cm
+      | r => statusThen k (cm.cond "Synced" ("err:deleteXR:" ++ r.cls)) .requeue
 
-def claimBound (cm : Obj) (xr : Option Obj) : P :=
+def claimBound (k : Key) (cm : Obj) (xr : Option Obj) : P :=
   match xr with
   | some x =>
-    if x.ref ≠ "" ∧ x.ref ≠ cm.key.name then statusThen (cm.cond "Synced" "err:unbound") .ok
-    else if cm.del then claimDeleted cm xr else .ret .oos
-  | none => if cm.del then claimDeleted cm none else .ret .oos
+    if x.ref ≠ "" ∧ x.ref ≠ k.name then statusThen k (cm.cond "Synced" "err:unbound") .ok
+    else if cm.del then claimDeleted k cm xr else .ret .oos
+  | none => if cm.del then claimDeleted k cm none else .ret .oos
 
-def claimGot (cm : Obj) : P :=
-  if cm.paused then statusThen (cm.cond "Synced" "Paused") .ok
-  else if cm.ref = "" then claimBound cm none
+def claimGot (k : Key) (cm : Obj) : P :=
+  if cm.paused then statusThen k (cm.cond "Synced" "Paused") .ok
+  else if cm.ref = "" then claimBound k cm none
   else .call (.get ⟨.xr, cm.ref⟩) fun
-    | .obj x => claimBound cm (some x)
-    | .notFound => claimBound cm none
-    | r => statusThen (cm.cond "Synced" ("err:getXR:" ++ r.cls)) .requeue
+    | .obj x => claimBound k cm (some x)
+    | .notFound => claimBound k cm none
+    | r => statusThen k (cm.cond "Synced" ("err:getXR:" ++ r.cls)) .requeue
 
 def claimRec (n : String) : P :=
   .call (.get ⟨.claim, n⟩) fun
-    | .obj cm => claimGot cm
+    | .obj cm => claimGot ⟨.claim, n⟩ cm
     | .notFound => .ret .ok
     | _ => .ret .err
 
 /-- composite resource (XR) reconciler, deletion branch -/
 def xrRec (n : String) : P :=
-  .call (.get ⟨.xr, n⟩) fun
+  let k : Key := ⟨.xr, n⟩
+  .call (.get k) fun
     | .obj x =>
-      if x.paused then statusThen (x.cond "Synced" "Paused") .ok
+      if x.paused then statusThen k (x.cond "Synced" "Paused") .ok
       else if !x.del then .ret .oos
       else
         let x := x.cond "Ready" "Deleting"
         if x.fins.contains c08XRFinalizer then
-          .call (.removeFin x.key x.rv c08XRFinalizer) fun
-            | .obj x' => statusThen (x'.cond "Synced" "Success") .ok
-            | .notFound => statusThen (x.cond "Synced" "Success") .ok
+          .call (.removeFin k x.rv c08XRFinalizer) fun
+            | .obj x' => statusThen k (x'.cond "Synced" "Success") .ok
+            | .notFound => statusThen k (x.cond "Synced" "Success") .ok
             | .conflict => .ret .requeue
-            | r => statusThen (x.cond "Synced" ("err:removeFin:" ++ r.cls)) .requeue
-        else statusThen (x.cond "Synced" "Success") .ok
+            | r => statusThen k (x.cond "Synced" ("err:removeFin:" ++ r.cls)) .requeue
+        else statusThen k (x.cond "Synced" "Success") .ok
     | .notFound => .ret .ok
     | _ => .ret .err
 
 /-- XRD controllers, "CRD is gone or not ours": stop the controller, drop the finalizer.
-`d` is the XRD as first read, `cur` the copy returned by the status update (it carries the
-current resourceVersion and finalizers; name, uid and CRD names cannot differ). -/
-def xrdFinish (d cur : Obj) (ctrl fin : String) : P :=
+`cur` is the XRD as returned by the status update (current resourceVersion and finalizers). -/
+def xrdFinish (k : Key) (cur : Obj) (ctrl fin : String) : P :=
   .call (.stop ctrl) fun
     | .ok =>
       if cur.fins.contains fin then
-        .call (.removeFin d.key cur.rv fin) fun
+        .call (.removeFin k cur.rv fin) fun
           | .obj _ => .ret .ok
           | .notFound => .ret .ok
           | .conflict => .ret .requeue
@@ -322,23 +327,26 @@ def xrdStopDelete (ctrl : String) (crd : Key) : P :=
 def compositeCtrl (xrd : String) : String := c08CompositeControllerPrefix ++ xrd
 def claimCtrl (xrd : String) : String := c08ClaimControllerPrefix ++ xrd
 
-/-- `definition` reconciler (composite CRD + XR controller), deletion branch -/
+/-- `definition` reconciler (composite CRD + XR controller), deletion branch. `d` is the
+XRD as first read (its uid and CRD names cannot change), `d'` the copy the status update
+returned. -/
 def definedRec (n : String) : P :=
-  .call (.get ⟨.xrd, n⟩) fun
+  let k : Key := ⟨.xrd, n⟩
+  .call (.get k) fun
     | .obj d =>
       if !d.del then .ret .oos else
-      .call (.setStatus d.key d.rv (setCond d.conds "Established" "TerminatingComposite")) fun
+      .call (.setStatus k d.rv (setCond d.conds "Established" "TerminatingComposite")) fun
         | .obj d' =>
           .call (.get ⟨.crd, d.ref⟩) fun
             | .obj c =>
-              if !c.controlledBy d.uid then xrdFinish d d' (compositeCtrl n) c08DefinedFinalizer
+              if !c.controlledBy d.uid then xrdFinish k d' (compositeCtrl n) c08DefinedFinalizer
               else .call (.deleteAll .xr) fun
                 | .ok => .call (.list .xr) fun
                     | .list [] => xrdStopDelete (compositeCtrl n) ⟨.crd, d.ref⟩
                     | .list _ => .ret .requeue
                     | _ => .ret .err
                 | _ => .ret .err
-            | .notFound => xrdFinish d d' (compositeCtrl n) c08DefinedFinalizer
+            | .notFound => xrdFinish k d' (compositeCtrl n) c08DefinedFinalizer
             | _ => .ret .err
         | .conflict => .ret .requeue
         | _ => .ret .err
@@ -354,28 +362,30 @@ def deleteEach : List Obj → P
 
 /-- `offered` reconciler (claim CRD + claim controller), deletion branch -/
 def offeredRec (n : String) : P :=
-  .call (.get ⟨.xrd, n⟩) fun
+  let k : Key := ⟨.xrd, n⟩
+  .call (.get k) fun
     | .obj d =>
       if !d.del then .ret .oos else
-      .call (.setStatus d.key d.rv (setCond d.conds "Offered" "TerminatingClaim")) fun
+      .call (.setStatus k d.rv (setCond d.conds "Offered" "TerminatingClaim")) fun
         | .obj d' =>
           .call (.get ⟨.crd, d.of⟩) fun
             | .obj c =>
-              if !c.controlledBy d.uid then xrdFinish d d' (claimCtrl n) c08OfferedFinalizer
+              if !c.controlledBy d.uid then xrdFinish k d' (claimCtrl n) c08OfferedFinalizer
               else .call (.list .claim) fun
                 | .list [] => xrdStopDelete (claimCtrl n) ⟨.crd, d.of⟩
-                | .list l => deleteEach l
+                -- the items of a claim list are claims
+                | .list l => deleteEach (l.filter (fun o => o.key.kind = .claim))
                 | _ => .ret .err
-            | .notFound => xrdFinish d d' (claimCtrl n) c08OfferedFinalizer
+            | .notFound => xrdFinish k d' (claimCtrl n) c08OfferedFinalizer
             | _ => .ret .err
         | .conflict => .ret .requeue
         | _ => .ret .err
     | .notFound => .ret .ok
     | _ => .ret .err
 
-def revFinalize (pr : Obj) : P :=
+def revFinalize (k : Key) (pr : Obj) : P :=
   if pr.fins.contains c08RevisionFinalizer then
-    .call (.removeFin pr.key pr.rv c08RevisionFinalizer) fun
+    .call (.removeFin k pr.rv c08RevisionFinalizer) fun
       | .obj _ => .ret .ok
       | .notFound => .ret .ok
       | .conflict => .ret .requeue
@@ -384,59 +394,61 @@ def revFinalize (pr : Obj) : P :=
 
 /-- package revision reconciler, deletion branch: cache.Delete, lock.RemoveSelf, RemoveFinalizer -/
 def revRec (n : String) : P :=
-  .call (.get ⟨.rev, n⟩) fun
+  let k : Key := ⟨.rev, n⟩
+  .call (.get k) fun
     | .obj pr =>
-      if pr.paused then statusThen (pr.cond "Synced" "Paused") .ok
+      if pr.paused then statusThen k (pr.cond "Synced" "Paused") .ok
       else if !pr.del then .ret .oos
       else .call (.cacheDelete n) fun
         | .ok => .call (.get lockKey) fun
             | .obj l =>
               if l.pkgs.contains n then
                 .call (.lockRemove l.rv n) fun
-                  | .obj _ => revFinalize pr
+                  | .obj _ => revFinalize k pr
                   | .conflict => .ret .requeue
                   | _ => .ret .err
-              else revFinalize pr
-            | .notFound => revFinalize pr
+              else revFinalize k pr
+            | .notFound => revFinalize k pr
             | _ => .ret .err
         | _ => .ret .err
     | .notFound => .ret .ok
     | _ => .ret .err
 
-def usageFinalize (u : Obj) : P :=
+def usageFinalize (k : Key) (u : Obj) : P :=
   if u.fins.contains c08UsageFinalizer then
-    .call (.removeFin u.key u.rv c08UsageFinalizer) fun
+    .call (.removeFin k u.rv c08UsageFinalizer) fun
       | .obj _ => .ret .ok
       | .notFound => .ret .ok
       | .conflict => .ret .requeue
       | _ => .ret .err
   else .ret .ok
 
-def usageUsed (u : Obj) : P :=
+def usageUsed (k : Key) (u : Obj) : P :=
   .call (.get ⟨.res, u.of⟩) fun
     | .obj used => .call (.listUsagesOf u.of) fun
         | .list l =>
           if l.length < 2 then
             .call (.unlabel ⟨.res, u.of⟩ used.rv) fun
-              | .obj _ => usageFinalize u
+              | .obj _ => usageFinalize k u
               | .conflict => .ret .requeue
               | _ => .ret .err
-          else usageFinalize u
+          else usageFinalize k u
         | _ => .ret .err
-    | .notFound => usageFinalize u
+    | .notFound => usageFinalize k u
     | _ => .ret .err
 
 /-- Usage reconciler, deletion branch -/
 def usageRec (n : String) : P :=
-  .call (.get ⟨.usage, n⟩) fun
+  let k : Key := ⟨.usage, n⟩
+  .call (.get k) fun
     | .obj u =>
       if !u.del then .ret .oos
       else if u.ref ≠ "" ∧ u.flag then
         .call (.get ⟨.res, u.ref⟩) fun
           | .obj _ => .ret .requeue
-          | .notFound => usageUsed u
+          | .notFound => usageUsed k u
           | _ => .ret .err
-      else usageUsed u
+      else usageUsed k u
     | .notFound => .ret .ok
     | _ => .ret .err
 
@@ -454,8 +466,11 @@ def program : Ctl → String → P
 
 /-! ### the interleaved system -/
 
-/-- an in-flight reconcile: what it has seen so far (ghost) and what is left of it -/
+/-- an in-flight reconcile: which controller and key it serves and what it has seen so
+far (ghost), and what is left of it -/
 structure Thread where
+  ctl : Ctl
+  name : String
   hist : List (Req × Resp)
   prog : P
 
@@ -474,7 +489,7 @@ inductive Act where
 def Thread.dead (t : Thread) : Thread := { t with prog := .ret .crashed }
 
 def Sys.act (s : Sys) : Act → Sys
-  | .spawn c n => { s with ths := s.ths ++ [⟨[], program c n⟩] }
+  | .spawn c n => { s with ths := s.ths ++ [⟨c, n, [], program c n⟩] }
   | .step i o =>
     match s.ths[i]? with
     | none => s
@@ -485,9 +500,9 @@ def Sys.act (s : Sys) : Act → Sys
         match o with
         | .ok =>
           let x := exec s.st r
-          { st := x.1, ths := s.ths.set i ⟨t.hist ++ [(r, x.2)], k x.2⟩ }
-        | .fail => { s with ths := s.ths.set i ⟨t.hist ++ [(r, errResp .fail r)], k (errResp .fail r)⟩ }
-        | .conflict => { s with ths := s.ths.set i ⟨t.hist ++ [(r, errResp .conflict r)], k (errResp .conflict r)⟩ }
+          { st := x.1, ths := s.ths.set i { t with hist := t.hist ++ [(r, x.2)], prog := k x.2 } }
+        | .fail => { s with ths := s.ths.set i { t with hist := t.hist ++ [(r, errResp .fail r)], prog := k (errResp .fail r) } }
+        | .conflict => { s with ths := s.ths.set i { t with hist := t.hist ++ [(r, errResp .conflict r)], prog := k (errResp .conflict r) } }
         | .crashBefore => { st := crash s.st, ths := s.ths.map Thread.dead }
         | .crashAfter => { st := crash (exec s.st r).1, ths := s.ths.map Thread.dead }
   | .del k => { s with st := deleteKey s.st k false }
@@ -498,12 +513,116 @@ def Sys.run (s : Sys) : List Act → Sys
   | [] => s
   | a :: rest => (s.act a).run rest
 
-/-- finalizers owned by Crossplane controllers; a third party never removes these -/
-def ownFinalizers : List String :=
-  [c08ClaimFinalizer, c08XRFinalizer, c08DefinedFinalizer, c08OfferedFinalizer, c08RevisionFinalizer, c08UsageFinalizer]
+/-! ### the property as a predicate on (state, controller, request about to be applied) -/
 
-def Act.allowed : Act → Prop
-  | .unfin _ f => f ∉ ownFinalizers
+def present (s : St) (k : Key) : Bool := (find s k).isSome
+
+def noneOf (s : St) (kd : Kind) : Bool := s.objs.all (fun o => o.key.kind != kd)
+
+/-- the CRD `crd` is gone or is not controlled by the object with this uid -/
+def crdNotOurs (s : St) (crd : String) (uid : Nat) : Bool :=
+  match find s ⟨.crd, crd⟩ with
+  | none => true
+  | some c => !c.controlledBy uid
+
+/-- the XR a stored claim references is gone, or (policy not Foreground) already being deleted -/
+def claimXRGone (s : St) (cm : Obj) : Bool :=
+  cm.ref == "" ||
+  match find s ⟨.xr, cm.ref⟩ with
+  | none => true
+  | some x => x.del && !cm.flag
+
+/-- `safeReq s c n r`: request `r`, about to be applied to state `s` by a reconcile of
+controller `c` for key `n`, respects the teardown order. -/
+def safeReq (s : St) (c : Ctl) (n : String) : Req → Bool
+  | .removeFin k _ fin =>
+    match c with
+    | .claim => fin != c08ClaimFinalizer || (match find s k with | none => true | some cm => claimXRGone s cm)
+    | .defined => fin != c08DefinedFinalizer || (match find s k with | none => true | some d => crdNotOurs s d.ref d.uid)
+    | .offered => fin != c08OfferedFinalizer || (match find s k with | none => true | some d => crdNotOurs s d.of d.uid)
+    | .rev => fin != c08RevisionFinalizer || (match find s lockKey with | none => true | some l => !l.pkgs.contains k.name)
+    | .usage => fin != c08UsageFinalizer ||
+        (match find s k with | none => true | some u => !(u.flag && u.ref != "") || !present s ⟨.res, u.ref⟩)
+    | .xr => true
+  | .delete k _ =>
+    match c with
+    | .defined => k.kind != .crd || (noneOf s .xr && !s.running.contains (compositeCtrl n))
+    | .offered => k.kind != .crd || (noneOf s .claim && !s.running.contains (claimCtrl n))
+    | _ => true
+  | .stop _ =>
+    match c with
+    | .defined => (match find s ⟨.xrd, n⟩ with | none => true | some d => crdNotOurs s d.ref d.uid || noneOf s .xr)
+    | .offered => (match find s ⟨.xrd, n⟩ with | none => true | some d => crdNotOurs s d.of d.uid || noneOf s .claim)
+    | _ => true
+  | _ => true
+
+/-! ### what one reconcile has seen: histories and the local ordering constraints -/
+
+abbrev Hist := List (Req × Resp)
+
+/-- every request the program issues when run under fault plan `plan` from store `s`
+(with any server semantics `sm`), paired with the history of requests and replies the
+reconcile had seen when it issued it -/
+def issued (sm : Sem St Req Resp) (plan : Plan) : Nat → Hist → P → St → List (Hist × Req)
+  | _, _, .ret _, _ => []
+  | k, h, .call r c, s =>
+    match plan k with
+    | .ok => (h, r) :: issued sm plan (k+1) (h ++ [(r, (sm.exec s r).2)]) (c (sm.exec s r).2) (sm.exec s r).1
+    | .fail => (h, r) :: issued sm plan (k+1) (h ++ [(r, sm.errResp .fail r)]) (c (sm.errResp .fail r)) s
+    | .conflict => (h, r) :: issued sm plan (k+1) (h ++ [(r, sm.errResp .conflict r)]) (c (sm.errResp .conflict r)) s
+    | .crashBefore => [(h, r)]
+    | .crashAfter => [(h, r)]
+
+/-- `a` occurs in `h` strictly before `b` -/
+def Before (h : Hist) (a b : Req × Resp) : Prop := ∃ h1 h2 h3, h = h1 ++ a :: h2 ++ b :: h3
+
+/-- the reconcile has seen that the XR of claim `cm` is gone: it read it as NotFound, or
+(policy not Foreground) its Delete was acknowledged -/
+def XRGoneSeen (h : Hist) (cm : Obj) : Prop :=
+  cm.ref = "" ∨ (Req.get ⟨.xr, cm.ref⟩, Resp.notFound) ∈ h ∨
+  (cm.flag = false ∧ ((Req.delete ⟨.xr, cm.ref⟩ false, Resp.ok) ∈ h ∨ (Req.delete ⟨.xr, cm.ref⟩ false, Resp.notFound) ∈ h))
+
+/-- the reconcile has read the CRD as NotFound or as not controlled by `uid` -/
+def CRDNotOursSeen (h : Hist) (crd : String) (uid : Nat) : Prop :=
+  (Req.get ⟨.crd, crd⟩, Resp.notFound) ∈ h ∨ ∃ c, (Req.get ⟨.crd, crd⟩, Resp.obj c) ∈ h ∧ c.controlledBy uid = false
+
+/-- the reconcile has seen that revision `n` is not in the Lock -/
+def NotInLockSeen (h : Hist) (n : String) : Prop :=
+  (Req.get lockKey, Resp.notFound) ∈ h ∨ (∃ l, (Req.get lockKey, Resp.obj l) ∈ h ∧ n ∉ l.pkgs) ∨
+  ∃ rv l, (Req.lockRemove rv n, Resp.obj l) ∈ h
+
+/-- `guardH c n h r`: what a reconcile of controller `c` for key `n` must have seen (`h`)
+when it issues request `r`. -/
+def guardH (c : Ctl) (n : String) (h : Hist) : Req → Prop
+  | .removeFin k _ fin =>
+    match c with
+    | .claim => fin = c08ClaimFinalizer → k = ⟨.claim, n⟩ ∧ ∃ cm, (Req.get ⟨.claim, n⟩, Resp.obj cm) ∈ h ∧ XRGoneSeen h cm
+    | .defined => fin = c08DefinedFinalizer → k = ⟨.xrd, n⟩ ∧ ∃ d, (Req.get ⟨.xrd, n⟩, Resp.obj d) ∈ h ∧ CRDNotOursSeen h d.ref d.uid
+    | .offered => fin = c08OfferedFinalizer → k = ⟨.xrd, n⟩ ∧ ∃ d, (Req.get ⟨.xrd, n⟩, Resp.obj d) ∈ h ∧ CRDNotOursSeen h d.of d.uid
+    | .rev => fin = c08RevisionFinalizer → k = ⟨.rev, n⟩ ∧ NotInLockSeen h n
+    | .usage => fin = c08UsageFinalizer → k = ⟨.usage, n⟩ ∧ ∃ u, (Req.get ⟨.usage, n⟩, Resp.obj u) ∈ h ∧
+        (u.ref = "" ∨ u.flag = false ∨ (Req.get ⟨.res, u.ref⟩, Resp.notFound) ∈ h)
+    | .xr => True
+  | .delete k _ =>
+    match c with
+    | .defined => k.kind = .crd →
+        Before h (Req.list .xr, Resp.list []) (Req.stop (compositeCtrl n), Resp.ok)
+    | .offered => k.kind = .crd →
+        Before h (Req.list .claim, Resp.list []) (Req.stop (claimCtrl n), Resp.ok)
+    | _ => k.kind ≠ .crd
+  | .stop ctl =>
+    match c with
+    | .defined => ctl = compositeCtrl n ∧ ∃ d, (Req.get ⟨.xrd, n⟩, Resp.obj d) ∈ h ∧
+        (CRDNotOursSeen h d.ref d.uid ∨ (Req.list .xr, Resp.list []) ∈ h)
+    | .offered => ctl = claimCtrl n ∧ ∃ d, (Req.get ⟨.xrd, n⟩, Resp.obj d) ∈ h ∧
+        (CRDNotOursSeen h d.of d.uid ∨ (Req.list .claim, Resp.list []) ∈ h)
+    | _ => False
   | _ => True
+
+/-- `Always φ h p`: on every path of `p` (every possible reply to every call), each
+request is issued only when `φ` holds of the history so far. -/
+def Always (φ : Hist → Req → Prop) : Hist → P → Prop
+  | _, .ret _ => True
+  | h, .call r k => φ h r ∧ ∀ x, Always φ (h ++ [(r, x)]) (k x)
 
 end Xp.C08
